@@ -39,11 +39,13 @@ import (
 
 func main() {
 	vf.Main("C33", "exploration",
-		"sequences (length 6-12) over {add by go-git (branch|detached, at HEAD|at commit), add by git, remove, commit / forced checkout (detach|new branch) / hard reset / stage-only by go-git in main or any linked worktree, commit by git, re-open} on generated histories; after every step all other worktrees are compared with their previous observation and git is asked to list/status/resolve; non-trivial = at least two worktrees exist when the step runs; shape = operation + kind of target worktree + number of live worktrees + result",
+		"sequences (length 8-14) over {open of a removed worktree's leftover directory or of a directory with a dangling .git file (and, if it opens, a commit/reset/stage/checkout through it), add by go-git (branch|detached, at HEAD|at commit), add by git, remove, commit / forced checkout (detach|new branch) / hard reset / stage-only by go-git in main or any linked worktree, commit by git, re-open} on generated histories; after every step all other worktrees are compared with their previous observation and git is asked to list/status/resolve; non-trivial = at least two worktrees exist when the step runs; shape = operation + kind of target worktree + number of live worktrees + result",
 		run)
 }
 
 type wtree struct {
+	relative  bool   // the worktree's .git file holds a relative gitdir path (valid for git; written by git >= 2.48 with worktree.useRelativePaths)
+	stale     string // "" live/main; "removed" = leftover of Remove; otherwise the kind of hand-made dangling .git file
 	name, dir string
 	byGit     bool
 	alive     bool
@@ -51,10 +53,11 @@ type wtree struct {
 }
 
 type view struct {
-	head  string
-	index string
-	files fsguard.Snapshot
-	ls    string // cached `git ls-files -s`
+	head     string
+	resolved string // commit HEAD resolves to (read from the ref files, no git process)
+	index    string
+	files    fsguard.Snapshot
+	ls       string // cached `git ls-files -s`
 }
 
 type seq struct {
@@ -89,6 +92,7 @@ func (s *seq) observe(w *wtree, withLs bool) *view {
 	gd := s.gitdir(w)
 	b, _ := os.ReadFile(filepath.Join(gd, "HEAD"))
 	v := &view{head: strings.TrimSpace(string(b)), index: sum(filepath.Join(gd, "index")), files: obs.Worktree(w.dir)}
+	v.resolved = s.resolve(v.head)
 	if withLs {
 		r := s.g.Run(w.dir, "--no-optional-locks", "ls-files", "-s", "-z")
 		v.ls = string(r.Out)
@@ -97,6 +101,26 @@ func (s *seq) observe(w *wtree, withLs bool) *view {
 		}
 	}
 	return v
+}
+
+// resolve follows a HEAD file content to a commit id using the shared ref store (loose, then packed).
+func (s *seq) resolve(head string) string {
+	for i := 0; i < 5 && strings.HasPrefix(head, "ref: "); i++ {
+		name := strings.TrimSpace(strings.TrimPrefix(head, "ref: "))
+		if b, err := os.ReadFile(filepath.Join(s.main, ".git", filepath.FromSlash(name))); err == nil {
+			head = strings.TrimSpace(string(b))
+			continue
+		}
+		head = "unborn:" + name
+		if b, err := os.ReadFile(filepath.Join(s.main, ".git", "packed-refs")); err == nil {
+			for _, ln := range strings.Split(string(b), "\n") {
+				if f := strings.Fields(ln); len(f) == 2 && f[1] == name {
+					head = f[0]
+				}
+			}
+		}
+	}
+	return head
 }
 
 func (s *seq) fail(key, what string) {
@@ -150,6 +174,8 @@ func (s *seq) checkOthers(op string, target *wtree) {
 		kind := map[bool]string{true: "main", false: "linked"}[w.main]
 		if now.head != old.head {
 			s.fail(op+":other-worktree-HEAD-changed:"+kind, fmt.Sprintf("%s in %s changed HEAD of worktree %s: %q -> %q", op, target.dir, w.dir, old.head, now.head))
+		} else if now.resolved != old.resolved {
+			s.fail(op+":other-worktree-HEAD-commit-changed:"+kind, fmt.Sprintf("%s in %s moved the commit HEAD (%s) of worktree %s resolves to: %s -> %s", op, target.dir, now.head, w.dir, old.resolved, now.resolved))
 		}
 		if d := fsguard.Diff(old.files, now.files, false); len(d) > 0 {
 			s.fail(op+":other-worktree-files-changed:"+kind, fmt.Sprintf("%s in %s changed files of worktree %s: %v", op, target.dir, w.dir, d))
@@ -229,8 +255,24 @@ func (s *seq) step(r *rand.Rand) {
 	if linked < 3 {
 		ops = append(ops, "add-gogit", "add-gogit", "add-gogit-detached", "add-git")
 	}
-	if linked > 1 {
+	if linked > 1 || (linked == 1 && nlive >= 2 && r.Intn(3) == 0) {
 		ops = append(ops, "remove-gogit")
+	}
+	var dead []*wtree
+	for _, w := range s.wts {
+		if !w.alive && !w.main {
+			dead = append(dead, w)
+		}
+	}
+	if len(dead) > 0 {
+		ops = append(ops, "reopen-removed-gogit", "reopen-removed-gogit", "reopen-removed-gogit")
+	}
+	ops = append(ops, "open-dangling-gogit")
+	for _, w := range live {
+		if !w.main && !w.relative {
+			ops = append(ops, "relativize-gitfile")
+			break
+		}
 	}
 	op := ops[r.Intn(len(ops))]
 	if linked == 0 {
@@ -335,33 +377,132 @@ func (s *seq) step(r *rand.Rand) {
 		st.Close()
 		if opErr == nil {
 			target.alive = false
+			target.stale = "removed"
+			if target.relative {
+				target.stale = "removed-relative-gitdir"
+			}
 			lr := s.g.Run(s.main, "worktree", "list", "--porcelain")
 			if lr.OK() && strings.Contains(string(lr.Out), "worktree "+target.dir+"\n") {
 				s.fail("remove-gogit:still-listed-by-git", "git still lists the removed worktree "+target.dir)
 			}
 		}
+	case "relativize-gitfile":
+		// Rewrite the .git file of a live linked worktree to the equivalent relative path. git resolves it
+		// relative to the file's directory; the worktree stays fully valid for git.
+		var cs []*wtree
+		for _, w := range live {
+			if !w.main && !w.relative {
+				cs = append(cs, w)
+			}
+		}
+		target = cs[r.Intn(len(cs))]
+		desc = fmt.Sprintf("relativize-gitfile(%s)", target.name)
+		rel, err := filepath.Rel(target.dir, s.gitdir(target))
+		if err != nil {
+			s.c.Broken("rel: %v", err)
+			return
+		}
+		os.WriteFile(filepath.Join(target.dir, ".git"), []byte("gitdir: "+rel+"\n"), 0o644)
+		target.relative = true
+		if s.gitUsable(op, target) {
+			s.c.Count("relative_gitfile_accepted_by_git", 1)
+		}
+	case "reopen-removed-gogit", "open-dangling-gogit":
+		// A directory whose .git file names metadata that does not exist (any more): the leftover of a
+		// removed worktree, or a hand-made dangling link. Open may refuse or succeed; if it succeeds,
+		// an operation through the returned repository must not change any live worktree.
+		if op == "reopen-removed-gogit" {
+			target = dead[r.Intn(len(dead))]
+		} else {
+			name := fmt.Sprintf("d%d", s.nstep)
+			target = &wtree{name: name, dir: filepath.Join(filepath.Dir(s.main), name)}
+			os.MkdirAll(target.dir, 0o755)
+			v := r.Intn(3)
+			target.stale = []string{"dangling-abs", "dangling-foreign-abs", "dangling-relative"}[v]
+			link := []string{
+				filepath.Join(s.main, ".git", "worktrees", "ghost"+name),
+				filepath.Join(filepath.Dir(s.main), "nowhere", ".git", "worktrees", name),
+				filepath.Join("..", "main", ".git", "worktrees", "ghost"+name),
+			}[v]
+			os.WriteFile(filepath.Join(target.dir, ".git"), []byte("gitdir: "+link+"\n"), 0o644)
+			os.WriteFile(filepath.Join(target.dir, "stale.txt"), []byte("stale\n"), 0o644)
+			s.wts = append(s.wts, target) // stays dead: only a candidate for later re-opens
+		}
+		if strings.HasPrefix(target.stale, "removed") {
+			s.c.Count("reopen_removed", 1)
+		}
+		op = "open-stale[" + target.stale + "]"
+		sub := []string{"commit", "reset-hard", "stage", "checkout-detach"}[r.Intn(4)]
+		desc = fmt.Sprintf("%s(%s,%s)", op, target.name, sub)
+		repo, closeFn, err := s.openRepo(target)
+		if err != nil {
+			res = "open-refused"
+			s.c.Count("stale_open_refused", 1)
+			break
+		}
+		s.c.Count("stale_open_succeeded", 1)
+		pv, stack := vf.Catch(func() {
+			w, err := repo.Worktree()
+			if err != nil {
+				opErr = err
+				return
+			}
+			switch sub {
+			case "commit":
+				fn := fmt.Sprintf("z-%d.txt", s.nstep)
+				os.WriteFile(filepath.Join(target.dir, fn), []byte(desc+"\n"), 0o644)
+				if _, opErr = w.Add(fn); opErr != nil {
+					return
+				}
+				_, opErr = w.Commit(desc, &git.CommitOptions{Author: sig})
+			case "reset-hard":
+				opErr = w.Reset(&git.ResetOptions{Commit: plumbing.NewHash(commit), Mode: git.HardReset})
+			case "stage":
+				fn := fmt.Sprintf("z-%d.txt", s.nstep)
+				os.WriteFile(filepath.Join(target.dir, fn), []byte(desc+"\n"), 0o644)
+				_, opErr = w.Add(fn)
+			case "checkout-detach":
+				opErr = w.Checkout(&git.CheckoutOptions{Hash: plumbing.NewHash(commit), Force: true})
+			}
+		})
+		closeFn()
+		if pv != nil {
+			s.fail("panic:"+op, fmt.Sprintf("%s panicked: %v\n%s", desc, pv, stack))
+			opErr = fmt.Errorf("panic")
+		}
+		if opErr == nil {
+			s.c.Count("ops_through_stale_open", 1)
+		}
 	default:
 		target = pickTarget(true)
 		desc = fmt.Sprintf("%s(%s)", op, filepath.Base(target.dir))
+		sub := op
+		if target.relative && op != "commit-git" {
+			// one label for every go-git operation in such a worktree: the finding does not depend on the operation
+			op = "gogit-op[relative-gitdir]"
+		}
 		if op == "commit-git" {
+			if target.relative {
+				op = "commit-git[relative-gitdir]"
+			}
 			fn := fmt.Sprintf("g-%d.txt", s.nstep)
 			os.WriteFile(filepath.Join(target.dir, fn), []byte(desc+"\n"), 0o644)
 			if gr := s.g.Run(target.dir, "add", fn); !gr.OK() {
-				s.fail("commit-git:git-add-fails", "git add fails in "+target.dir+": "+gr.String())
+				s.fail(op+":git-add-fails", "git add fails in "+target.dir+": "+gr.String())
 				break
 			}
 			if gr := s.g.Run(target.dir, "commit", "-q", "-m", desc); !gr.OK() {
-				s.fail("commit-git:git-commit-fails", "git commit fails in "+target.dir+": "+gr.String())
+				s.fail(op+":git-commit-fails", "git commit fails in "+target.dir+": "+gr.String())
 				break
 			}
 			want := s.headOf(target)
 			repo, closeFn, err := s.openRepo(target)
 			if err != nil {
-				s.fail("commit-git:gogit-cannot-open", fmt.Sprintf("go-git cannot open %s: %v", target.dir, err))
+				s.fail(op+":gogit-cannot-open", fmt.Sprintf("go-git cannot open %s: %v", target.dir, err))
 				break
 			}
 			if h, err := repo.Head(); err != nil || h.Hash().String() != want {
-				s.fail("commit-git:gogit-head-mismatch", fmt.Sprintf("after git commit in %s go-git Head() = %v, %v; git says %s", target.dir, h, err, want))
+				s.fail(op+":gogit-head-mismatch", fmt.Sprintf("after git commit in %s go-git Head() = %v, %v; git says %s", target.dir, h, err, want))
 			}
 			closeFn()
 			break
@@ -379,7 +520,7 @@ func (s *seq) step(r *rand.Rand) {
 				opErr = err
 				return
 			}
-			switch op {
+			switch sub {
 			case "commit-gogit":
 				fn := fmt.Sprintf("c-%d.txt", s.nstep)
 				os.WriteFile(filepath.Join(target.dir, fn), []byte(desc+"\n"), 0o644)
@@ -412,7 +553,7 @@ func (s *seq) step(r *rand.Rand) {
 			opErr = fmt.Errorf("panic")
 		}
 		if opErr == nil && s.gitUsable(op, target) {
-			switch op {
+			switch sub {
 			case "commit-gogit":
 				if h := s.headOf(target); h != newCommit.String() {
 					s.fail(op+":git-resolves-other-HEAD", fmt.Sprintf("go-git committed %s in %s but git rev-parse HEAD there = %s", newCommit, target.dir, h))
@@ -433,12 +574,12 @@ func (s *seq) step(r *rand.Rand) {
 				s.c.Count("git_confirmations", 3)
 				s.c.Count("shared_store_checks", 1)
 			case "checkout-detach-gogit", "reset-hard-gogit", "checkout-newbranch-gogit":
-				if op != "reset-hard-gogit" {
+				if sub != "reset-hard-gogit" {
 					if h := s.headOf(target); h != commit {
 						s.fail(op+":git-resolves-other-HEAD", fmt.Sprintf("after %s to %s git rev-parse HEAD in %s = %s", op, commit, target.dir, h))
 					}
 				}
-				if op == "checkout-newbranch-gogit" {
+				if sub == "checkout-newbranch-gogit" {
 					if h, _ := s.g.MustOut(s.main, "rev-parse", fmt.Sprintf("refs/heads/b%d", s.nstep)); h != commit {
 						s.fail(op+":branch-not-shared", fmt.Sprintf("branch b%d created in %s is not visible from main (%q)", s.nstep, target.dir, h))
 					}
@@ -447,14 +588,16 @@ func (s *seq) step(r *rand.Rand) {
 			}
 		}
 	}
-	if opErr != nil {
+	if opErr != nil && res == "ok" {
 		res = "err"
 		s.c.Count("op_errors", 1)
 		s.c.Seen("op_error_kinds", op+": "+firstWords(opErr.Error()))
 	}
 	s.log = append(s.log, desc+"="+res)
 	kind := "linked-gogit"
-	if target != nil && target.main {
+	if strings.HasPrefix(op, "open-stale[") {
+		kind = "stale"
+	} else if target != nil && target.main {
 		kind = "main"
 	} else if target != nil && target.byGit {
 		kind = "linked-git"
@@ -492,7 +635,7 @@ func runSeq(c *vf.Ctx, g *gitx.Git, id int) {
 	m := &wtree{name: "main", dir: base.Dir, alive: true, main: true}
 	s.wts = []*wtree{m}
 	s.views[m.dir] = s.observe(m, true)
-	n := 6 + r.Intn(7)
+	n := 8 + r.Intn(7)
 	for i := 0; i < n; i++ {
 		s.step(r)
 	}
@@ -524,7 +667,10 @@ func run(c *vf.Ctx) {
 	c.Floor("isolation comparisons", c.Counter("isolation_comparisons"), c.N(350, 3000))
 	c.Floor("worktrees listed by git", c.Counter("worktrees_listed_by_git"), c.N(40, 300))
 	c.Floor("shared store checks", c.Counter("shared_store_checks"), c.N(40, 300))
-	c.Floor("operation kinds", c.SeenCount("ops"), 11)
+	c.Floor("operation kinds", c.SeenCount("ops"), 17)
+	c.Floor("relative .git files accepted by git", c.Counter("relative_gitfile_accepted_by_git"), c.N(10, 80))
+	c.Floor("opens of stale worktree directories (removed or dangling)", c.Counter("stale_open_refused")+c.Counter("stale_open_succeeded"), c.N(40, 300))
+	c.Floor("re-opens of removed worktrees", c.Counter("reopen_removed"), c.N(12, 90))
 	c.Assume("two worktrees never have the same branch checked out (git forbids it; a commit through one would legitimately move the other's resolved HEAD); isolation is judged on the per-worktree HEAD file, index and files")
 	c.Assume("Remove only deletes the metadata directory (documented); the worktree directory itself is left alone and afterwards treated as dead")
 }
